@@ -59,8 +59,20 @@ package fluentdforward
 //@        && fastmsgpack.be32(buffer, 3) == unixsec(record.Timestamp) % 4294967296 && fastmsgpack.be32(buffer, 7) == nanosec(record.Timestamp)
 //@   loop 2: invariant fastmsgpack.maplenat(buffer, 11) == 1 + vcnt(packer, record, len(packer.fieldMasks))
 
+// the bound SerializeRecord compares with the buffer before encoding: exactly the left side of encodeRecord's [fits]
+//@ func (packer *eventSerializer) maxEncodedLength(record *base.LogRecord) int
+//@   requires validpacker(packer) && record != nil && len(packer.fieldMasks) <= len(record.Fields)
+//@   define   psum(packer, record, 0) == 0 && forall i int :: 0 <= i && i < len(packer.fieldMasks) ==>
+//@               psum(packer, record, i + 1) == psum(packer, record, i) + (vis(packer, record, i) ? len(packer.serializedFieldKeys[i]) + 5 + vmax(packer, record, i) : 0)
+//@   define   esum(packer, record, 0) == 0 && forall j int :: 0 <= j && j < len(packer.envFieldLocators) ==>
+//@               esum(packer, record, j + 1) == esum(packer, record, j) + len(packer.serializedEnvFieldKeys[j]) + 5 + len(record.Fields[packer.envFieldLocators[j]])
+//@   modifies nothing
+//@   ensures[the-bound-of-fits] result == 14 + psum(packer, record, len(packer.fieldMasks)) + 15 + esum(packer, record, len(packer.envFieldLocators))
+//@   loop 1: invariant -1 <= rangeindex && rangeindex < len(packer.fieldMasks) && total == 29 + psum(packer, record, rangeindex + 1)
+//@   loop 2: invariant -1 <= rangeindex#2 && rangeindex#2 < len(packer.envFieldLocators) && total == 29 + psum(packer, record, len(packer.fieldMasks)) + esum(packer, record, rangeindex#2 + 1)
+
 //@ func (packer *eventSerializer) SerializeRecord(record *base.LogRecord) base.LogStream
-//@   requires validpacker(packer) && record != nil && len(packer.fieldMasks) <= len(record.Fields) && len(packer.buffer) == 2 * defs.InputLogMaxRecordBytes
+//@   requires validpacker(packer) && record != nil && len(packer.fieldMasks) <= len(record.Fields) && len(packer.buffer) == 2 * defs.InputLogMaxRecordBytes && packer.logger != nil
 //@   modifies packer.buffer[:], record.Unescaped
 //@   ensures  len(result) <= len(packer.buffer)
 
